@@ -157,7 +157,9 @@ class Exec:
         a = obs["a"]
         changed = self.identity_broken()
         if changed:
-            return "bound-signal-identity", f"{changed} always the same bound signal", f"{changed} is another object after {a}", {"C11"}
+            # one (instance, attribute) pair has split into two channels: what is dispatched through the object obtained first no longer
+            # reaches those who subscribe through a later access (C10) - and the identity clause of C11 is broken
+            return "bound-signal-identity", f"{changed} always the same bound signal", f"{changed} is another object after {a}", {"C11", "C10"}
         if a == "BadSubscribe" and got != obs["r"]:
             return "subscribe-result", obs["r"], got, {"C11"}
         if a == "Dispatch":
